@@ -134,7 +134,7 @@ def s3(ck, an):
     for d in fa.rd.defs:
         if d.var == x and d.kind == "assign":
             v = fa.sym.canon(d.value, d.node)        # value id: the conversion may sit in a helper / behind a temporary
-            ck.check(("asarray(" in v or "array(" in v) and re.search(r"\b%s\b" % re.escape(x), v) is not None, "ARGFLOW", "S3.box-contains-same-x", subj,
+            ck.check(v == x or (("asarray(" in v or "array(" in v) and re.search(r"\b%s\b" % re.escape(x), v) is not None), "ARGFLOW", "S3.box-contains-same-x", subj,
                      fa.loc(d.ast), "x is only converted to an array before the tests", f"x is replaced by {v} before the membership tests", construct=ast.unparse(d.ast))
     # MRO exhaustiveness
     ps = an.prog.cls("PortfolioSpace")
